@@ -534,6 +534,13 @@ func builtinBytes(args ...Object) (Object, error) {
 		if n.Value > int64(MaxBytesLen) {
 			return nil, ErrBytesLimit
 		}
+		if n.Value < 0 {
+			return nil, ErrInvalidArgumentType{
+				Name:     "first",
+				Expected: "non-negative int",
+				Found:    "negative int",
+			}
+		}
 		return &Bytes{Value: make([]byte, int(n.Value))}, nil
 	}
 	v, ok := ToByteSlice(args[0])
